@@ -162,6 +162,7 @@ type solveOpts struct {
 	keep     bool
 	both     bool // thorough: require a second back end where it answers
 	workers  int
+	noSecond bool
 }
 
 func discharge(vc *VC, obls []*Obligation, opts solveOpts) {
@@ -193,6 +194,9 @@ func discharge(vc *VC, obls []*Obligation, opts solveOpts) {
 						o.Backend = "z3-5.1+cvc5"
 					}
 				}
+				return
+			}
+			if opts.noSecond {
 				return
 			}
 			// second tier: z3 4.8 and cvc5 in parallel
